@@ -152,6 +152,7 @@ func (w *lpWorld) runAsync() *simcore.Violation {
 		w.lastStimulus = time.Now()
 		if len(heads) > 0 {
 			info.newHead = heads[len(heads)-1]
+			info.heads = heads
 		}
 		info.maint = true
 		post := w.observe()
